@@ -1687,7 +1687,10 @@ _GL_CUSTOM = '2000-01-01 custom "x" 1 "s"2 3\n'
 _GL_CUSTOM2 = '2000-01-01 custom "x" 1  "s"2 "t"TRUE 3\n'
 _GL_TAGS = '2000-01-01 * "n" #a ^l#b ^m\n  Assets:A\n'
 for _t, _a, _n in ((_GL_CUSTOM, 'raw_values', 4), (_GL_CUSTOM2, 'raw_values', 6), (_GL_TAGS, 'raw_tags_links', 4),
-                   ('2000-01-01 open Assets:A USD,EUR ,CAD;c\n', 'raw_currencies', 3)):
+                   ('2000-01-01 open Assets:A USD,EUR ,CAD;c\n', 'raw_currencies', 3),
+                   # the glued neighbour is the LAST item of the list (the keep-the-blanks rule must not stop one short)
+                   ('2000-01-01 custom "x" 1 "s"2\n', 'raw_values', 3), ('2000-01-01 custom "x" 1 2 "s"TRUE\n', 'raw_values', 4),
+                   ('2000-01-01 * "n" #a ^l#b\n  Assets:A\n', 'raw_tags_links', 3)):
     CORPUS += [(_t, [_RV(_a, 'pop', i=_i)]) for _i in range(_n)]
     CORPUS += [(_t, [_RV(_a, 'delitem', i=_i - _n)]) for _i in range(_n)]
     CORPUS += [(_t, [_RV(_a, 'delslice', s=[1, 2, None])]), (_t, [_RV(_a, 'delslice', s=[1, 3, None])]),
